@@ -34,6 +34,8 @@ let () =
          | "DV" -> let pbc = ni () <> 0 in let hc = ni () <> 0 in let cell = v3 () in let a = v3 () in let b = v3 () in
            let c = if hc then Some cell else None in
            Printf.printf "%s %s %s\n" (hex (dv_dist2 fops pbc c a b)) (p3 (dv_lgrad fops pbc c a b)) (p3 (dv_rgrad fops pbc c a b))
+         | "DVT" -> let ca = v3 () in let cb = v3 () in let cc = v3 () in let a = v3 () in let b = v3 () in
+           Printf.printf "%s %s %s\n" (hex (dvt_dist2 fops ca cb cc a b)) (p3 (dvt_lgrad fops ca cb cc a b)) (p3 (dvt_rgrad fops ca cb cc a b))
          | "ISC" -> let a = nf () in let b = nf () in let l = nf () in Printf.printf "%s\n" (hex (sc_interp fops a b l))
          | "IV3" -> let a = v3 () in let b = v3 () in let l = nf () in Printf.printf "%s\n" (p3 (v3_interp fops a b l))
          | "IUV" -> let a = v3 () in let b = v3 () in let l = nf () in
@@ -53,7 +55,15 @@ let () =
            let kind = next () in let wc = nf () in let n = ni () in
            let k = (match kind with
                | "distance" | "eulerTheta" | "polarTheta" | "tilt" | "orientationAngle" | "dihedralCoeff2" -> KScalar
-               | "dihedral" | "spinAngle" | "eulerPhi" | "eulerPsi" | "polarPhi" | "dihedralSum" -> KPeriodic (360.0, wc)
+               | "dihedral" | "spinAngle" | "eulerPhi" | "eulerPsi" | "polarPhi" -> KPeriodic (360.0, wc)
+               (* sums / differences of components: the periods of the components in the order the code creates them *)
+               | "dihedralSum" | "dihedralDiff" -> hv_kind fops wc [Some 360.0; Some 360.0]
+               | "mixDihedralDistance" -> hv_kind fops wc [Some 360.0; None]
+               | "mixAngleDihedral" -> hv_kind fops wc [None; Some 360.0]
+               | "mixPeriods" -> hv_kind fops wc [Some 10.0; Some 20.0]
+               (* components nesting other components: the type-generic functions of their value type *)
+               | "lcScalar" | "gspathCV" | "gzpathCV" | "aspathCV" | "azpathCV" -> KScalar
+               | "lcVec3" -> KVec3 (false, None)
                | "distanceDir" -> KUnit
                | "orientation" -> KQuat
                | "cartesian" | "distancePairs" -> KVector
